@@ -6,7 +6,10 @@ ok = True
 m = json.load(open('MANIFEST.json'))
 jsonschema.validate(m, json.load(open('/root/.vp/MANIFEST.schema.json')))
 es = json.load(open('/root/.vp/EVIDENCE.schema.json'))
+ready = open('vf/props/READY').read().split()
 for p in sorted(glob.glob('evidence/*.json')):
+  if p.split('/')[-1][:-5] not in ready:
+    continue
   try:
     jsonschema.validate(json.load(open(p)), es)
   except Exception as e:
